@@ -10,16 +10,13 @@ import (
 
 func init() {
 	register("C05", &propSpec{
-		technique: "static analysis: sibling agreement over all Policy.Select implementations (returned host behind its own Available() edge, nil only after loop exhaustion), induction-variable form of probe indices, module-wide atomic-access consistency, decision-table extraction of every policy by abstract evaluation of its SSA (E10)",
+		technique: "static analysis: decision-table extraction of every Policy.Select implementation and of staticUpstream.Select by abstract evaluation of their SSA (E10), module-wide atomic-access consistency, guard and loop-exit analysis of the retry loop",
 		run:       runC05,
-		decided: "R1 every policy (and the upstream's own Select) returns a host only behind the true edge of Available() on that same host, or delegates to another policy; " +
-			"R2 a nil result is returned only after a loop over the whole pool was exhausted; " +
-			"R3 every pool index of the form e % n inside a probing loop is 'loop-invariant base + unit-step counter' or a counter advanced by exactly one per iteration (visits every slot); " +
-			"R5 every struct field that is accessed through sync/atomic anywhere is accessed through it everywhere; " +
+		decided: "R5 every struct field that is accessed through sync/atomic anywhere is accessed through it everywhere; " +
 			"R6 the retry loop keeps retrying unless the client cancelled or the try duration is spent and ends in 502; " +
 			"R7 every attempt gets the rewound buffered body and buffering is decided by exactly {more than one host, retries enabled}; " +
 			"R8 the hash policies' first slot is a function of key and pool length only (deterministic hash of the whole key), and each policy keys by its documented request attribute — ip_hash by the client address with the port removed by net.SplitHostPort; " +
-			"R9 the full selection table of first, least_conn, random, round_robin and the hash probe for pools of up to four backends under every availability mask (least-loaded, earliest, cyclic-next, an even rotation when all are up, nil exactly when none is available).",
+			"R9 the full selection table of every policy and of the upstream's own Select for pools of up to four backends under every availability mask: only available backends are returned and nil exactly when none is available; first picks the earliest, least_conn a least-loaded one, the hash probe the cyclic-next one from hash(key) mod n, round_robin the next after its counter and an even rotation when all are up; ip_hash, uri_hash and header send equal keys (client address without port, URI, header value) to the same backend and different keys through the hash (this subsumes the former pattern rules R1-R3).",
 		notDecided: "evenness of random, and of round_robin when some backends are down; pools of more than four backends; hash stability across pool changes; timing of try_duration; outcome under all failure patterns.",
 	})
 	register("C14", &propSpec{
@@ -35,8 +32,8 @@ func init() {
 
 func runC05(r *Report, p *Program) {
 	h := H{r, p}
-	c05R1R2(h)
-	c05R3(h)
+	// R1 (returned host is available), R2 (nil only after a full scan) and R3 (probe index form) were pattern rules
+	// over the Select implementations; the selection tables R9 decide the same clauses from what the functions compute.
 	atomicConsistency(h, "R5")
 	c05R6(h)
 	bodyReplayRule(h, "R7")
@@ -538,20 +535,50 @@ func c14R5(h H) {
 			if strings.HasPrefix(name, "Add") {
 				delta, _ = constInt(c.Args[1])
 			}
-			where := outerFunc(fn)
 			_, isDefer := in.(*ssa.Defer)
 			construct := sprintf("%s/%s.%s(%+d)", shortFunc(fn), field, name, delta)
+			// the request path that owns the pairing: Proxy.ServeHTTP and what it calls, defers or starts in its package
+			owned := false
+			if sv := h.p.Func(pxPkg, "Proxy.ServeHTTP"); sv != nil {
+				for _, g := range withHelpers(sv, 4) {
+					if g == fn {
+						owned = true
+					}
+				}
+			}
+			sites := callSitesOf(h.p, fn)
+			onlyCalledBy := func(kind string) bool {
+				if len(sites) == 0 {
+					return false
+				}
+				for _, s := range sites {
+					switch s.(type) {
+					case *ssa.Defer:
+						if kind != "defer" || inLoop(s.Block()) {
+							return false
+						}
+					case *ssa.Go:
+						if kind != "go" {
+							return false
+						}
+					default:
+						return false
+					}
+				}
+				return true
+			}
+			isServe := fn.Parent() == nil && fn.Name() == "ServeHTTP"
 			switch {
 			case !strings.HasPrefix(name, "Add") || (delta != 1 && delta != -1):
 				r.Fail("R5", construct, in.Pos(), "the counter is overwritten instead of being incremented/decremented in pairs: outstanding decrements will later drive it out of step (below zero, or down while failures are still unexpired)")
-			case where != "(proxy.Proxy).ServeHTTP":
+			case !owned:
 				r.Fail("R5", construct, in.Pos(), "the counter is modified outside the request path that owns the pairing")
 			case field == "Conns" && delta == 1:
-				r.Check(!inLoop(in.Block()) && fn.Parent() != nil, "R5", construct, in.Pos(), "the in-flight increment lives in a per-attempt function, not directly in the retry loop (a defer in a loop only runs when the whole request ends)")
+				r.Check(!inLoop(in.Block()) && !isServe, "R5", construct, in.Pos(), "the in-flight increment lives in a per-attempt function, not directly in the retry loop (a defer in a loop only runs when the whole request ends)")
 			case field == "Conns" && delta == -1:
-				r.Check(isDefer && !inLoop(in.Block()), "R5", construct, in.Pos(), "the in-flight decrement is deferred in the per-attempt function")
+				r.Check((isDefer && !inLoop(in.Block())) || onlyCalledBy("defer"), "R5", construct, in.Pos(), "the in-flight decrement is deferred in the per-attempt function")
 			case field == "Fails" && delta == -1:
-				r.Check(fn.Parent() != nil, "R5", construct, in.Pos(), "failures are taken back only by the timed goroutine")
+				r.Check(fn.Parent() != nil || onlyCalledBy("go"), "R5", construct, in.Pos(), "failures are taken back only by the timed goroutine")
 			default:
 				r.Hold("R5", construct, in.Pos(), "designated counter update")
 			}
@@ -573,7 +600,7 @@ func c14R1(h H) {
 			return
 		}
 		nf := 0
-		for _, fn := range withClosures(sv) {
+		for _, fn := range withHelpers(sv, 3) {
 			for _, c := range findCalls(fn, func(in ssa.Instruction) bool {
 				cc := callOf(in)
 				return cc != nil && strings.HasSuffix(calleeName(cc), "proxy.ReverseProxy).ServeHTTP")
@@ -624,15 +651,14 @@ func c14R1(h H) {
 				// a deferred -1 on the same address must be registered on all paths from here to any exit or call
 				okPair := true
 				var bad ssa.Instruction
-				reach(fn, in, cut{instr: func(x ssa.Instruction) bool {
-					d, isDefer := x.(*ssa.Defer)
-					if !isDefer {
+				isDecOf := func(x ssa.Instruction) bool {
+					if _, isDefer := x.(*ssa.Defer); !isDefer {
 						return false
 					}
-					a2, nm, ok := isAtomicCall(d)
-					dl, _ := constInt(d.Call.Args[1])
-					return ok && strings.HasPrefix(nm, "Add") && dl == -1 && sameValue(a2, addr)
-				}}, func(x ssa.Instruction) bool {
+					o2, f2, dl, ok := counterAdd(x)
+					return ok && f2 == "Conns" && dl == -1 && sameObject(o2, fa.X)
+				}
+				reach(fn, in, cut{instr: isDecOf}, func(x ssa.Instruction) bool {
 					switch x.(type) {
 					case *ssa.Return, *ssa.Panic:
 						okPair = false
@@ -651,15 +677,7 @@ func c14R1(h H) {
 				if !okPair {
 					// the other safe order: the matching defer is registered first and the increment follows it
 					// with nothing in between that could return, panic or call out (so the pair is all-or-nothing)
-					isDec := func(x ssa.Instruction) bool {
-						d, isDefer := x.(*ssa.Defer)
-						if !isDefer {
-							return false
-						}
-						a2, nm, ok := isAtomicCall(d)
-						dl, _ := constInt(d.Call.Args[1])
-						return ok && strings.HasPrefix(nm, "Add") && dl == -1 && sameValue(a2, addr)
-					}
+					isDec := isDecOf
 					if mustPass(fn, in, isDec) {
 						before := true
 						for _, d := range findCalls(fn, isDec) {
@@ -767,22 +785,8 @@ func c14R1(h H) {
 func c14R3(h H) {
 	r := h.r
 	r.Rule("R3", "cap enforced atomically (check-then-act): the comparison Conns >= MaxConns and the increment of Conns must be one atomic step (CompareAndSwap loop) or share a lock; casket compares in UpstreamHost.Full (called from Select) and increments later in Proxy.ServeHTTP", 1)
-	full := h.fn("R3", pxPkg, "(*UpstreamHost).Full")
-	if full == nil {
-		return
-	}
-	cmp := false
-	allInstrs(full, func(in ssa.Instruction) {
-		if b, ok := in.(*ssa.BinOp); ok && (b.Op == token.GEQ || b.Op == token.GTR) {
-			if isResultOf(b.X, 0, "sync/atomic.LoadInt64") && readsField(b.Y, "MaxConns") {
-				cmp = true
-			}
-		}
-	})
-	if !cmp {
-		r.Unresolve("R3", "UpstreamHost.Full: comparison of Conns with MaxConns not found")
-		return
-	}
+	// what Full() computes is decided by R4's table; here: how the counter it reads is incremented
+	nInc := 0
 	for _, fn := range h.p.PkgFuncs(pxPkg) {
 		allInstrs(fn, func(in ssa.Instruction) {
 			addr, name, ok := isAtomicCall(in)
@@ -803,17 +807,13 @@ func c14R3(h H) {
 			if d, _ := constInt(callOf(in).Args[1]); d != 1 {
 				return
 			}
-			// is the cap compared in this same function before the increment, under a lock? (no)
-			sameFn := false
-			allInstrs(fn, func(x ssa.Instruction) {
-				if c := callOf(x); c != nil && c.StaticCallee() == full {
-					sameFn = true
-				}
-			})
-			_ = sameFn
-			r.Fail("R3", outerFunc(fn)+"/Conns-increment-not-atomic-with-cap-check", in.Pos(),
+			nInc++
+			r.Fail("R3", "proxy/Conns-increment-not-atomic-with-cap-check", in.Pos(),
 				"max_conns is checked by Full() at selection time and the counter is incremented later by a plain atomic add: N concurrent requests can all pass the check and all increment, exceeding the cap")
 		})
+	}
+	if nInc == 0 {
+		r.Unresolve("R3", "no increment of UpstreamHost.Conns found in package proxy")
 	}
 }
 
@@ -825,79 +825,8 @@ func outerFunc(fn *ssa.Function) string {
 }
 
 func c14R4(h H) {
-	r := h.r
-	r.Rule("R4", "down predicate: the CheckDown function installed by staticUpstream.NewHost returns true exactly under Unhealthy != 0 or Fails >= MaxFails (atomic loads); the default Down() uses Unhealthy != 0 || Fails > 0", 2)
-	nh := h.fn("R4", pxPkg, "(*staticUpstream).NewHost")
-	if nh == nil {
-		return
-	}
-	found := false
-	for _, g := range withClosures(nh) {
-		if g == nh {
-			continue
-		}
-		// closure func(*UpstreamHost) bool
-		if g.Signature.Params().Len() != 1 || !strings.HasSuffix(g.Signature.Params().At(0).Type().String(), "proxy.UpstreamHost") {
-			continue
-		}
-		found = true
-		// every way of answering "down" has exactly one positive reason, Unhealthy != 0 or Fails >= MaxFails
-		// (other atoms on it are negations of earlier disjuncts), and both reasons occur
-		unhealthy, fails := false, false
-		extra := []string{}
-		for _, cs := range boolCases(g, true) {
-			reasons := 0
-			for _, a := range cs {
-				b, isBin := a.Cond.(*ssa.BinOp)
-				nz := false
-				if x, lo, hi, hasLo, hasHi, ok := atomIntBounds(a); ok && atomicLoadOf(x, "Unhealthy") {
-					// x != 0 for a value that is only ever 0 or 1
-					nz = (hasLo && lo >= 1) || (hasHi && hi <= -1)
-				}
-				if x, kind, cst, ok := intCmp(a.Cond); ok && cst == 0 && atomicLoadOf(x, "Unhealthy") && ((kind == "ne" && a.Pos) || (kind == "eq" && !a.Pos)) {
-					nz = true
-				}
-				switch {
-				case nz:
-					unhealthy = true
-					reasons++
-				case isBin && ((a.Pos && b.Op == token.GEQ) || (!a.Pos && b.Op == token.LSS)) && atomicLoadOf(b.X, "Fails") && readsField(b.Y, "MaxFails"):
-					fails = true
-					reasons++
-				case isBin && ((a.Pos && b.Op == token.LEQ) || (!a.Pos && b.Op == token.GTR)) && atomicLoadOf(b.Y, "Fails") && readsField(b.X, "MaxFails"):
-					fails = true
-					reasons++
-				case isNegatedReason(a):
-					// negation of an earlier disjunct on the fall-through path
-				default:
-					extra = append(extra, describe(a.Cond))
-				}
-			}
-			if reasons == 0 {
-				extra = append(extra, "a way to report down without either reason")
-			}
-		}
-		r.Check(unhealthy && fails && len(extra) == 0, "R4", "proxy.(*staticUpstream).NewHost/CheckDown", g.Pos(),
-			"a backend is down exactly while it is marked unhealthy or has at least max_fails unexpired failures", extra...)
-	}
-	if !found {
-		r.Unresolve("R4", "NewHost: CheckDown closure not found")
-	}
-	if dn := h.fn("R4", pxPkg, "(*UpstreamHost).Down"); dn != nil {
-		u, f := false, false
-		allInstrs(dn, func(in ssa.Instruction) {
-			if b, ok := in.(*ssa.BinOp); ok {
-				x, kind, c, ok := intCmp(b)
-				if ok && atomicLoadOf(x, "Unhealthy") && kind == "ne" && c == 0 {
-					u = true
-				}
-				if ok && atomicLoadOf(x, "Fails") && kind == "gt" && c == 0 {
-					f = true
-				}
-			}
-		})
-		r.Check(u && f, "R4", "proxy.(*UpstreamHost).Down/default", dn.Pos(), "default predicate: Unhealthy != 0 || Fails > 0, both read atomically")
-	}
+	h.r.Rule("R4", "availability predicates as decision tables (E10): a host built by staticUpstream.NewHost is evaluated under every combination of unhealthy flag, failure count vs max_fails, cap set/unset and in-flight count vs cap — Down() is true exactly under unhealthy or fails >= max_fails, Full() exactly under cap set and conns >= cap, Available() exactly when neither; the default Down() (no CheckDown) is unhealthy or fails > 0", 2)
+	c14Avail(h, "R4")
 }
 
 // isNegatedReason: the atom says one of the two down-reasons does NOT hold (it only appears on fall-through paths).
@@ -920,4 +849,163 @@ func atomicLoadOf(v ssa.Value, field string) bool {
 	}
 	fa, ok := c.Call.Args[0].(*ssa.FieldAddr)
 	return ok && fieldName(fa.X.Type(), fa.Field) == field
+}
+
+// counterAdd: in (a call, defer or go) adds delta to the named counter field of an UpstreamHost — directly through
+// sync/atomic, or by calling a module function whose every path performs exactly that on one of its parameters
+// (a wrapper such as uh.release()).  obj is the host value at the site.
+func counterAdd(in ssa.Instruction) (obj ssa.Value, field string, delta int64, ok bool) {
+	c := callOf(in)
+	if c == nil {
+		return nil, "", 0, false
+	}
+	if addr, name, isAt := isAtomicCall(in); isAt {
+		if !strings.HasPrefix(name, "Add") || len(c.Args) < 2 {
+			return nil, "", 0, false
+		}
+		fa, isFA := addr.(*ssa.FieldAddr)
+		if !isFA {
+			return nil, "", 0, false
+		}
+		d, isC := constInt(c.Args[1])
+		if !isC {
+			return nil, "", 0, false
+		}
+		return fa.X, fieldName(fa.X.Type(), fa.Field), d, true
+	}
+	f := c.StaticCallee()
+	if f == nil || len(f.Blocks) == 0 || fnPkg(f) == nil || !isModPkg(fnPkg(f).Path()) {
+		return nil, "", 0, false
+	}
+	var site ssa.Instruction
+	n := 0
+	allInstrs(f, func(x ssa.Instruction) {
+		if _, _, isAt := isAtomicCall(x); isAt {
+			if _, isDefer := x.(*ssa.Defer); !isDefer {
+				n++
+				site = x
+			}
+		}
+	})
+	if n != 1 {
+		return nil, "", 0, false
+	}
+	o, fld, d, ok2 := counterAdd(site)
+	if !ok2 {
+		return nil, "", 0, false
+	}
+	if fv, isFV := o.(*ssa.FreeVar); isFV {
+		// a closure over the host: the object is what the closure was bound to
+		mc, isMC := c.Value.(*ssa.MakeClosure)
+		if !isMC {
+			return nil, "", 0, false
+		}
+		for _, e := range exitsOf(f) {
+			if rt, isR := e.(*ssa.Return); isR && !mustPass(f, rt, func(x ssa.Instruction) bool { return x == site }) {
+				return nil, "", 0, false
+			}
+		}
+		for k, x := range f.FreeVars {
+			if x == fv && k < len(mc.Bindings) {
+				b := mc.Bindings[k]
+				if a, isA := b.(*ssa.Alloc); isA {
+					if st := uniqueValues(storesTo(a)); len(st) == 1 {
+						return st[0], fld, d, true
+					}
+				}
+				return b, fld, d, true
+			}
+		}
+		return nil, "", 0, false
+	}
+	if ld, isLd := o.(*ssa.UnOp); isLd {
+		// the captured variable lives in a cell: *fv — the object is "whatever that variable holds"
+		if _, isFV := ld.X.(*ssa.FreeVar); isFV && cellRoot(ld.X) != nil {
+			for _, e := range exitsOf(f) {
+				if rt, isR := e.(*ssa.Return); isR && !mustPass(f, rt, func(x ssa.Instruction) bool { return x == site }) {
+					return nil, "", 0, false
+				}
+			}
+			return ld, fld, d, true
+		}
+		return nil, "", 0, false
+	}
+	p, isP := o.(*ssa.Parameter)
+	if !isP {
+		return nil, "", 0, false
+	}
+	// on every path through the wrapper
+	for _, e := range exitsOf(f) {
+		if rt, isR := e.(*ssa.Return); isR && !mustPass(f, rt, func(x ssa.Instruction) bool { return x == site }) {
+			return nil, "", 0, false
+		}
+	}
+	for k, fp := range f.Params {
+		if fp == p && k < len(c.Args) {
+			return c.Args[k], fld, d, true
+		}
+	}
+	return nil, "", 0, false
+}
+
+// callSitesOf: every call, defer and go of f in the module.
+func callSitesOf(p *Program, f *ssa.Function) []ssa.Instruction {
+	var out []ssa.Instruction
+	for _, g := range p.ModFuncs() {
+		allInstrs(g, func(in ssa.Instruction) {
+			if c := callOf(in); c != nil && c.StaticCallee() == f {
+				out = append(out, in)
+			}
+		})
+	}
+	return out
+}
+
+// cellRoot: the variable cell (an Alloc in some enclosing function) that an address denotes, following closure
+// bindings upwards; nil if the address is not a captured variable.
+func cellRoot(addr ssa.Value) *ssa.Alloc {
+	for i := 0; i < 6; i++ {
+		switch t := addr.(type) {
+		case *ssa.Alloc:
+			return t
+		case *ssa.FreeVar:
+			fn := t.Parent()
+			if fn == nil || fn.Parent() == nil {
+				return nil
+			}
+			idx := -1
+			for k, fv := range fn.FreeVars {
+				if fv == t {
+					idx = k
+				}
+			}
+			var bound ssa.Value
+			allInstrs(fn.Parent(), func(in ssa.Instruction) {
+				if mc, ok := in.(*ssa.MakeClosure); ok && mc.Fn == ssa.Value(fn) && idx >= 0 && idx < len(mc.Bindings) {
+					bound = mc.Bindings[idx]
+				}
+			})
+			if bound == nil {
+				return nil
+			}
+			addr = bound
+		default:
+			return nil
+		}
+	}
+	return nil
+}
+
+// sameObject: the two values denote the same host — the same SSA value, or loads of the same captured variable.
+func sameObject(a, b ssa.Value) bool {
+	if sameValue(a, b) {
+		return true
+	}
+	la, oka := a.(*ssa.UnOp)
+	lb, okb := b.(*ssa.UnOp)
+	if oka && okb {
+		ra, rb := cellRoot(la.X), cellRoot(lb.X)
+		return ra != nil && ra == rb
+	}
+	return false
 }
